@@ -87,3 +87,145 @@ pub fn warmup(seed: u64, n: usize) {
         with_suite!(s, CS => one_step::<CS>(&mut st));
     }
 }
+
+/// Number of entries of the refused-call catalogue.
+pub const REFUSED_CALLS: u64 = 17;
+
+/// One call that the library has to refuse (an error value, or for some a panic that is swallowed here), executed
+/// on the current thread.  A flow whose steps are each preceded by one of these must behave exactly as without
+/// them: what an error path leaves behind (a scratch buffer not cleared, a half-written cache entry, a poisoned
+/// lock) otherwise goes into the next honest call on the thread.
+pub fn refused_call<CS: BbsCiphersuite>(k: u64) -> &'static str {
+    let kp = KeyPair::<BBSplus<CS>>::generate(&[9u8; 32], None, None);
+    let run = |f: &mut dyn FnMut()| {
+        let _ = std::panic::catch_unwind(std::panic::AssertUnwindSafe(f));
+    };
+    match k % REFUSED_CALLS {
+        0 => {
+            run(&mut || drop(KeyPair::<BBSplus<CS>>::generate(&[1u8; 31], None, None)));
+            "keygen:ikm-too-short"
+        }
+        1 => {
+            run(&mut || drop(KeyPair::<BBSplus<CS>>::generate(&[1u8; 32], None, Some(&[0x41u8; 256]))));
+            "keygen:key_dst-256-octets"
+        }
+        2 => {
+            run(&mut || drop(KeyPair::<BBSplus<CS>>::generate(&[1u8; 32], Some(&vec![7u8; 65536]), None)));
+            "keygen:key_info-65536-octets"
+        }
+        3 => {
+            run(&mut || drop(BBSplusPublicKey::from_bytes(&[0u8; 96])));
+            "public-key:zeros"
+        }
+        4 => {
+            run(&mut || drop(Signature::<BBSplus<CS>>::from_bytes(&[0xffu8; 80])));
+            "signature:0xff"
+        }
+        5 => {
+            run(&mut || drop(PoKSignature::<BBSplus<CS>>::from_bytes(&[0xc0u8; 272])));
+            "proof:0xc0"
+        }
+        6 => {
+            if let Ok(kp) = &kp {
+                run(&mut || drop(BlindSignature::<BBSplus<CS>>::blind_sign(kp.private_key(), kp.public_key(), Some(&[0xc0; 112]), Some(b"h"), Some(&[b"m".to_vec()]))));
+            }
+            "blind_sign:commitment-0xc0"
+        }
+        7 => {
+            if let Ok(kp) = &kp {
+                let (sk, pk) = (kp.private_key(), kp.public_key());
+                let m = [b"refused".to_vec()];
+                if let Ok(s) = Signature::<BBSplus<CS>>::sign(Some(&m), sk, pk, Some(b"h")) {
+                    run(&mut || drop(s.verify(pk, Some(&m), Some(b"other header"))));
+                }
+            }
+            "verify:other-header"
+        }
+        8 => {
+            if let Ok(kp) = &kp {
+                let (sk, pk) = (kp.private_key(), kp.public_key());
+                let m = [b"refused".to_vec(), b"second".to_vec()];
+                if let Ok(s) = Signature::<BBSplus<CS>>::sign(Some(&m), sk, pk, None) {
+                    run(&mut || drop(PoKSignature::<BBSplus<CS>>::proof_gen(pk, &s.to_bytes(), None, None, Some(&m), Some(&[5]))));
+                }
+            }
+            "proof_gen:index-out-of-range"
+        }
+        9 => {
+            if let Ok(kp) = &kp {
+                let (sk, pk) = (kp.private_key(), kp.public_key());
+                let m = [b"refused".to_vec(), b"second".to_vec()];
+                if let Ok(s) = Signature::<BBSplus<CS>>::sign(Some(&m), sk, pk, None) {
+                    if let Ok(p) = PoKSignature::<BBSplus<CS>>::proof_gen(pk, &s.to_bytes(), None, Some(b"ph"), Some(&m), Some(&[0])) {
+                        run(&mut || drop(p.proof_verify(pk, Some(&m[..1]), Some(&[0]), None, Some(b"another ph"))));
+                    }
+                }
+            }
+            "proof_verify:other-ph"
+        }
+        10 => {
+            if let Ok(kp) = &kp {
+                let (sk, pk) = (kp.private_key(), kp.public_key());
+                let m = [b"refused".to_vec()];
+                if let Ok(s) = Signature::<BBSplus<CS>>::sign(Some(&m), sk, pk, None) {
+                    run(&mut || drop(s.update_signature(sk, &m[0], b"new", 7, 1)));
+                }
+            }
+            "update_signature:position-out-of-range"
+        }
+        11 => {
+            run(&mut || drop(zkryptium::utils::util::bbsplus_utils::hash_to_scalar::<CS>(b"data", &[0x42u8; 256])));
+            "hash_to_scalar:dst-256-octets"
+        }
+        12 => {
+            run(&mut || drop(Commitment::<BBSplus<CS>>::from_bytes(&[0u8; 111])));
+            "commitment:111-octets"
+        }
+        13 => {
+            if let Ok(kp) = &kp {
+                let (sk, pk) = (kp.private_key(), kp.public_key());
+                let m = [b"refused".to_vec(), b"second".to_vec(), b"third".to_vec()];
+                if let Ok(s) = Signature::<BBSplus<CS>>::sign(Some(&m), sk, pk, None) {
+                    if let Ok(p) = PoKSignature::<BBSplus<CS>>::proof_gen(pk, &s.to_bytes(), None, None, Some(&m), Some(&[0, 2])) {
+                        let dm = [m[0].clone(), m[2].clone()];
+                        run(&mut || drop(p.proof_verify(pk, Some(&dm), Some(&[0, 3]), None, None)));
+                    }
+                }
+            }
+            "proof_verify:disclosed-index-out-of-range"
+        }
+        14 => {
+            if let Ok(kp) = &kp {
+                let (sk, pk) = (kp.private_key(), kp.public_key());
+                let m = [b"refused".to_vec(), b"second".to_vec()];
+                if let Ok(b) = BlindSignature::<BBSplus<CS>>::blind_sign(sk, pk, None, None, Some(&m)) {
+                    if let Ok(p) = PoKSignature::<BBSplus<CS>>::blind_proof_gen(pk, &b.to_bytes(), None, None, Some(&m), None, Some(&[1]), None, None) {
+                        run(&mut || drop(p.blind_proof_verify(pk, None, None, Some(2), Some(&m[1..]), None, Some(&[9]), None)));
+                        run(&mut || drop(p.blind_proof_verify(pk, None, None, Some(7), Some(&m[1..]), None, Some(&[1]), None)));
+                    }
+                }
+            }
+            "blind_proof_verify:index-or-L-out-of-range"
+        }
+        15 => {
+            if let Ok(kp) = &kp {
+                let (sk, pk) = (kp.private_key(), kp.public_key());
+                let m = [b"refused".to_vec()];
+                if let Ok(s) = Signature::<BBSplus<CS>>::sign(Some(&m), sk, pk, None) {
+                    run(&mut || drop(s.verify(pk, Some(&[]), None)));
+                    run(&mut || drop(PoKSignature::<BBSplus<CS>>::proof_gen(pk, &s.to_bytes(), None, None, Some(&[]), Some(&[0]))));
+                }
+            }
+            "verify-and-proof_gen:message-list-too-short"
+        }
+        _ => {
+            if let Ok(kp) = &kp {
+                let (sk, pk) = (kp.private_key(), kp.public_key());
+                if let Ok(b) = BlindSignature::<BBSplus<CS>>::blind_sign(sk, pk, None, None, Some(&[b"m".to_vec()])) {
+                    run(&mut || drop(b.verify_blind_sign(pk, None, Some(&[b"other".to_vec()]), None, None)));
+                }
+            }
+            "verify_blind_sign:other-message"
+        }
+    }
+}
